@@ -51,6 +51,12 @@ void r_fe_chunking(void)
     static fe_t fe; static float32 ovf[FS]; static float32 sf[NS]; static int16 si[NS];
     static mfcc_t cepbuf[4]; static mfcc_t *ceps[4] = { cepbuf, cepbuf, cepbuf, cepbuf };
     SSW_ASSUME(in_float == 0 || in_float == 1);
+    g_nfr = 0; g_winlen = 0;
+#ifdef CHUNKS
+    /* chunk sizes concrete per run (symbolic chunk boundaries make every buffer offset symbolic: did not finish in 15 min);
+     * the per-call output limits and the encoding stay symbolic */
+    { static const int cs[3] = { CHUNKS }; SSW_ASSUME(in_chunk[0] == cs[0] && in_chunk[1] == cs[1] && in_chunk[2] == cs[2]); }
+#endif
     for (int i = 0; i < NS; i++) { si[i] = (int16)(i + 1); sf[i] = (float32)(i + 1) / 32768.0f; }
     fe.frame_size = FS; fe.frame_shift = SH; fe.overflow_samps = ovf; fe.num_overflow_samps = 0; fe.swap = 0;
     int total = 0, calls = 0;
@@ -70,14 +76,33 @@ void r_fe_chunking(void)
         }
         SSW_ASSERT(n == 0, "with repeated calls the whole chunk is consumed");
     }
-    /* frame count depends only on the total number of samples */
-    int expect = total >= FS ? 1 + (total - FS) / SH : 0;
-    SSW_ASSERT(g_nfr == expect, "the number of frames depends only on the number of samples");
+    /* end of stream: the pending samples come out as one trailing (zero padded) frame */
+    int nproc = g_nfr;
+    int rend = fe_end(&fe, ceps, 3);
+    SSW_ASSERT(rend == g_nfr - nproc && (rend == 0 || rend == 1), "fe_end reports the frames it wrote");
+    /* the number of frames depends only on the total number of samples (one-shot schedule): full windows + one
+     * trailing partial frame if samples remain after the last full window */
+    int nfull = total >= FS ? 1 + (total - FS) / SH : 0;
+    int rest = total >= FS ? total - nfull * SH : total;     /* samples not yet shifted out after the last full frame */
+    int expect = nfull + (rest > 0 ? 1 : 0);
+    if (g_nfr != expect) {
+        /* KNOWN FINDING (known_findings.txt): the stream ends exactly on a window boundary (total == size + k*shift) after a
+         * call that was cut short by its output limit: the pending FULL window is emitted by fe_end in place of the
+         * trailing partial frame, one frame fewer than the one-shot schedule.  Any other mismatch is a new violation. */
+        int known_edge = total >= FS && (total - FS) % SH == 0 && g_nfr == expect - 1 && nproc == nfull - 1;
+        SSW_ASSERT(known_edge, "the number of frames depends only on the number of samples");
+        SSW_ASSERT(!known_edge, "KNOWN-EDGE stream ends on a window boundary after an output-limited call: fe_end emits the pending full window instead of the trailing partial frame (one frame fewer)");
+    }
     for (int k = 0; k < MAXFR; k++)
-        if (k < g_nfr) {
-            SSW_ASSERT(g_flen[k] == FS, "every frame has a full window");
+        if (k < g_nfr && k < nfull) {
+            SSW_ASSERT(g_flen[k] == FS, "every full frame has a full window");
             for (int i = 0; i < FS; i++)
                 SSW_ASSERT(g_frames[k][i] == (float)(k * SH + i + 1), "frame k is computed from samples k*shift .. k*shift+size-1, however the audio was chunked");
         }
+    if (g_nfr == expect && rest > 0) {
+        int k = nfull;
+        for (int i = 0; i < FS; i++)
+            SSW_ASSERT(g_frames[k][i] == (i < rest ? (float)(k * SH + i + 1) : 0.0f), "the trailing frame holds the remaining samples, zero padded");
+    }
     VERIF_CANARY();
 }
